@@ -150,6 +150,22 @@ pub enum ReadOp {
     EstimateGasMany { calls: Vec<(Who, Option<Target>, Cd)> },
     Balance { who: Who, ticker: u8 },
     Getters,
+    /// an executing read with an explicit block parameter (tag, past / future height, garbage)
+    AtBlock { sel: BlockSel, read: Box<ReadOp> },
+}
+
+#[derive(Clone, Debug, Serialize, Deserialize, PartialEq)]
+pub enum BlockSel {
+    Latest,
+    Pending,
+    Earliest,
+    /// hex height `tip - n`
+    Back(u8),
+    /// hex height `tip + n` (does not exist yet)
+    Ahead(u8),
+    /// decimal height `tip - n`
+    DecimalBack(u8),
+    Garbage,
 }
 
 #[derive(Clone, Debug, Serialize, Deserialize, PartialEq)]
